@@ -126,24 +126,31 @@ func oneFlow(c *Ctx, d int, vec []int, pol int, pk int) {
 		names[d+2+i] = fmt.Sprintf("F%d", d-i)
 	}
 	names[d+1] = "A"
+	// hooks created for the second Run on the same instance log their name with a trailing ' : a Run uses the hooks
+	// the commands hold at that time, not the ones of an earlier Run
+	gen := 1
 	mk := func(i int) func() {
+		name := names[i]
+		if gen == 2 {
+			name += "'"
+		}
 		switch vec[i] {
 		case ref.HAbsent:
 			return nil
 		case ref.HReturns:
-			return func() { log = append(log, names[i]) }
+			return func() { log = append(log, name) }
 		case ref.HPanics:
 			vals[i] = panicValue(pk, i, names[i])
-			return func() { log = append(log, names[i]); panic(vals[i]) }
+			return func() { log = append(log, name); panic(vals[i]) }
 		case ref.HFaults:
 			return func() {
-				log = append(log, names[i])
+				log = append(log, name)
 				defer func() { vals[i] = recover(); panic(vals[i]) }() // remember the exact runtime.Error, raise it again
 				var m map[string]int
 				m[names[i]] = 1
 			}
 		default:
-			return func() { log = append(log, names[i]); cli.Exit(10 + i) }
+			return func() { log = append(log, name); cli.Exit(10 + i) }
 		}
 	}
 	app := cli.App("app", "")
@@ -169,8 +176,25 @@ func oneFlow(c *Ctx, d int, vec []int, pol int, pk int) {
 		// (sub-commands of this chain declare nothing, so they can be initialised again)
 		first := strings.Join(log, " ")
 		log = nil
+		// the application assigns fresh hooks before running again (sub-command initializers do so by themselves)
+		gen = 2
+		app.Before, app.After = mk(0), mk(2*d+2)
+		if d == 0 {
+			app.Action = mk(d + 1)
+		}
 		o2 := runIsolated(func() error { return app.Run(argv) })
 		c.Count("second_runs_on_same_instance", 1)
+		stale := false
+		for i, e := range log {
+			if !strings.HasSuffix(e, "'") {
+				stale = true
+			}
+			log[i] = strings.TrimSuffix(e, "'")
+		}
+		if stale && c.On("C05") {
+			c.Violation("C05", fmt.Sprintf("flow depth=%d vec=%s policy=%d%s (second Run on the same instance, hooks re-assigned before it)", d, describeVec(names, vec), pol, pkText(pk)),
+				Case{"depth": d, "vec": append([]int{}, vec...), "policy": pol, "panic_kind": pk}, "the second Run calls the hooks assigned for it", "it called hooks of the first Run: "+strings.Join(log, " "))
+		}
 		if strings.Join(log, " ") != first || o2.Returned != o.Returned || o2.Panicked != o.Panicked || fmt.Sprint(o2.Exits) != fmt.Sprint(o.Exits) {
 			if c.On("C05") {
 				c.Violation("C05", fmt.Sprintf("flow depth=%d vec=%s policy=%d%s (second Run on the same instance)", d, describeVec(names, vec), pol, pkText(pk)),
